@@ -245,6 +245,9 @@ func init() {
 				e1runS("list-n2-d3", "list", 2, 3, "tx", o, 1, 0),
 				e1runS("doc-n2-d3", "doc", 2, 3, "tx", o, 1, 0),
 				e1runSP("doc-live-n2-d2", "doc", 2, 2, "tx", o, 1, 0, "live"),
+				e1runS("counter-n2-d3-2fails", "counter", 2, 3, "tx", o, 2, 0), // two failed transactions in one history
+				e1runSP("map-live-n2-d3-3fails", "map", 2, 3, "tx", o, 3, 0, "live"),
+				e1runSP("list-live-n2-d2-2fails", "list", 2, 2, "tx", o, 2, 0, "live"),
 				e1runSP("list-live-n2-d3", "list", 2, 3, "tx", o, 1, 0, "live"),
 				e1runSP("map-live-n2-d3", "map", 2, 3, "tx", o, 1, 0, "live"),
 			}
